@@ -2,6 +2,7 @@
 import SpsdkVerif.Proofs.Ahab
 import SpsdkVerif.Proofs.Crypto
 import SpsdkVerif.Properties.C16
+import SpsdkVerif.Crypto.Break
 
 namespace SpsdkVerif.Ahab
 open SpsdkVerif SpsdkVerif.Misc
@@ -646,5 +647,84 @@ theorem placed_within_length (ch : Chip) (us : List UContainer) (hA : 0 < ch.ima
   have h4 := alignNat_ge ((us.flatMap (fun u => u.placed.map (fun p => alignNat (p.offset + p.ready.size) 4))).foldl max 0)
     ch.imageAlignment hA
   omega
+
+
+/-! ### negative statements as reductions -/
+
+section reductions
+open SpsdkVerif.Spec.AhabRom
+open SpsdkVerif.Crypto (Break)
+
+theorem checkEntry_ok (c : CryptoOps) (p : Params) (bin : Bytes) (base pos : Nat) (dek : Option Bytes) (r : ImageRep)
+    (h : checkEntry c p bin base pos dek = .ok r) :
+    r.offset = base + rd bin pos 4 ∧ r.size = rd bin (pos + 4) 4 ∧ r.flags = rd bin (pos + 0x18) 4 ∧
+    r.offset + r.size ≤ bin.length ∧
+    ∃ a, hashOfTag ((r.flags >>> 8) % 2 ^ p.hashBits) = some a ∧
+      slice bin (pos + Spec.AhabRom.hashFieldOff) Spec.AhabRom.hashFieldLen = padHash (c.hash a (slice bin r.offset r.size)) := by
+  unfold checkEntry at h
+  simp only at h
+  split at h
+  · cases h
+  · rename_i hin
+    split at h
+    · cases h
+    · rename_i a ha
+      split at h
+      · cases h
+      · rename_i hh
+        split at h
+        · split at h
+          · cases h
+          · split at h
+            · cases h
+            · split at h
+              · cases h
+              · cases h
+                exact ⟨rfl, rfl, rfl, by simp only; omega, a, ha, by simpa using hh⟩
+        · cases h
+          exact ⟨rfl, rfl, rfl, by simp only; omega, a, ha, by simpa using hh⟩
+
+theorem padHash_inj (d d' : Bytes) (hl : d.length = d'.length) (h : padHash d = padHash d') : d = d' := by
+  unfold padHash at h
+  exact (List.append_inj h hl).1
+
+/-- tampering with image bytes: if the entry (its 128 bytes) is unchanged and the independent entry check still accepts,
+    the two different image contents collide under the declared hash -/
+theorem tamper_image_reduction (c : CryptoOps) (hc : CryptoLaws c) (p : Params) (bin bin' : Bytes) (base pos : Nat)
+    (dek dek' : Option Bytes) (r r' : ImageRep)
+    (hent : slice bin pos iaeSize = slice bin' pos iaeSize) (hpl : pos + iaeSize ≤ bin.length) (_hpl' : pos + iaeSize ≤ bin'.length)
+    (h : checkEntry c p bin base pos dek = .ok r) (h' : checkEntry c p bin' base pos dek' = .ok r')
+    (hdiff : slice bin r.offset r.size ≠ slice bin' r.offset r.size) : Break c := by
+  obtain ⟨o1, s1, f1, _, a, ha, hh⟩ := checkEntry_ok c p bin base pos dek r h
+  obtain ⟨o2, s2, f2, _, a', ha', hh'⟩ := checkEntry_ok c p bin' base pos dek' r' h'
+  have hX : slice bin pos (slice bin pos iaeSize).length = slice bin pos iaeSize := by
+    rw [slice_length _ _ _ hpl]
+  have hX' : slice bin' pos (slice bin pos iaeSize).length = slice bin pos iaeSize := by
+    rw [slice_length _ _ _ hpl, hent]
+  have hL : (slice bin pos iaeSize).length = 128 := slice_length _ _ _ hpl
+  have rdeq : ∀ k n, k + n ≤ 128 → rd bin (pos + k) n = rd bin' (pos + k) n := by
+    intro k n hk
+    rw [rd_of_eq bin _ pos k n hX (by omega), rd_of_eq bin' _ pos k n hX' (by omega)]
+  have sleq : ∀ k n, k + n ≤ 128 → slice bin (pos + k) n = slice bin' (pos + k) n := by
+    intro k n hk
+    rw [slice_of_eq bin _ pos k n hX (by omega), slice_of_eq bin' _ pos k n hX' (by omega)]
+  have e0 := rdeq 0 4 (by omega); simp only [Nat.add_zero] at e0
+  have eo : r'.offset = r.offset := by rw [o1, o2, e0]
+  have es : r'.size = r.size := by rw [s1, s2, rdeq 4 4 (by omega)]
+  have ef : r'.flags = r.flags := by rw [f1, f2, rdeq 0x18 4 (by omega)]
+  rw [ef, ha] at ha'; cases ha'
+  rw [eo, es, ← sleq Spec.AhabRom.hashFieldOff Spec.AhabRom.hashFieldLen (by decide), hh] at hh'
+  have := padHash_inj _ _ (by rw [hc.hash_len, hc.hash_len]) hh'
+  exact Break.collision a _ _ hdiff this
+
+theorem tamper_signed_reduction (c : CryptoOps) (alg : Crypto.SigAlg) (sk : Crypto.PrivKey) (rnd : Crypto.Rand) (bin bin' : Bytes) (base : Nat) (s : SigRep)
+    (hsig : slice bin' s.sigOff s.sigLen = c.sign alg sk (slice bin base s.signedLen) rnd)
+    (hdiff : slice bin base s.signedLen ≠ slice bin' base s.signedLen)
+    (hacc : sigObligation c alg (c.pubOf sk) bin' base s = true) : Break c := by
+  unfold sigObligation at hacc
+  rw [hsig] at hacc
+  exact Break.sigForgery alg sk _ _ rnd hdiff hacc
+
+end reductions
 
 end SpsdkVerif.Ahab
